@@ -1283,6 +1283,11 @@ static void _focus_gained(TickitWindow *win, TickitWindow *child)
    * holder is another child or this window itself */
   if(win->focused_child && win->focused_child != child) {
     _focus_lost(win->focused_child);
+
+    if(win->focus_child_notify) {
+      TickitFocusEventInfo info = { .type = TICKIT_FOCUSEV_OUT, .win = win->focused_child };
+      run_events(win, TICKIT_WINDOW_ON_FOCUS, &info);
+    }
   }
 
   if(child && win->is_focused) {
